@@ -364,6 +364,29 @@ class Sim:
             def __exit__(self, *a):
                 self.release()
 
+        class RLock(Lock):
+            """Re-entrant lock: the owner may acquire again (T4: threading.RLock)."""
+            def __init__(self):
+                super().__init__()
+                self._depth = 0
+
+            def acquire(self, blocking=True, timeout=-1):
+                me = sim.me() or True
+                if self._owner is me and self._depth > 0:
+                    self._depth += 1
+                    return True
+                r = super().acquire(blocking, timeout)
+                if r:
+                    self._depth = 1
+                return r
+
+            def release(self):
+                if self._depth > 1:
+                    self._depth -= 1
+                    return
+                self._depth = 0
+                super().release()
+
         class Queue:
             def __init__(self, maxsize=0):
                 self._q = collections.deque()
@@ -616,6 +639,7 @@ class Sim:
 
         ThreadingMod.Event = Event
         ThreadingMod.Lock = Lock
+        ThreadingMod.RLock = RLock
         ThreadingMod.Thread = Thread
         ThreadingMod.current_thread = _real_threading.current_thread
         ThreadingMod.local = _real_threading.local
